@@ -14,20 +14,32 @@ def mc_jobs(ctx):
     inv, prop = L.INV_C09 + ["CountIsLiveDeclarations"], L.PROP_C09
     jobs = [
         # closures in containers, one context
-        ("containers", {"DeclSet": "{6, 7}", "Name": '{"f"}', "Vias": '{"exec", "run"}', "MaxSteps": 4 if q else 5,
-                        "Acts": acts("define", "del", "push", "pop", "clear", "tick", "fire", "set", "unload")}, inv, prop, None),
+        ("containers", {"DeclSet": "{6, 7}", "Name": '{"f"}', "Vias": '{"exec", "run"}', "MaxSteps": 4 if q else 6,
+                        "Acts": acts("define", "del", "push", "pop", "clear", "tick", "fire", "set", "unload") if q else
+                        acts("define", "del", "push", "pop", "clear", "fire", "set", "unload")}, inv, prop, None),
         # three names, rebinding
-        ("names3", {"DeclSet": "{5, 7}", "Name": '{"f", "g", "h"}', "MaxSteps": 4 if q else 5,
-                    "Acts": acts("define", "del", "rebind", "tick", "fire", "set")}, inv, prop, None),
+        ("names3", {"DeclSet": "{5, 7}", "Name": '{"f", "g", "h"}', "MaxSteps": 4 if q else 6,
+                    "Acts": acts("define", "del", "rebind", "tick", "fire", "set") if q else
+                    acts("define", "del", "rebind", "fire", "set")}, inv, prop, None),
         # two contexts: file load while HA starts, reload, file delete, unload
         ("files", {"DeclSet": "{7, 8}", "Ctx": '{"c1", "c2"}', "StartedSet": "{TRUE, FALSE}", "MaxDefs": 1,
                    "MaxSteps": 3 if q else 4, "Name": '{"f"}' if q else '{"f", "g"}', "MaxGen": 3 if q else 4,
                    "Acts": acts("boot", "reload", "close", "unload", "define", "del", "fire", "set", "call")}, inv, prop, None),
         # deferred stops (windows), both subsystems
-        ("windows", {"DeclSet": "{7, 8}", "SubSet": '{"dm", "legacy"}', "Eager": "FALSE", "MaxGen": 3, "MaxSteps": 4 if q else 5,
-                     "Acts": acts("define", "del", "push", "clear", "fire", "set", "call", "unload") if q else
-                     acts("define", "del", "push", "clear", "tick", "fire", "set", "call", "unload")}, inv, prop, None),
+        ("windows", {"DeclSet": "{7, 8}", "SubSet": '{"dm", "legacy"}', "Eager": "FALSE", "MaxGen": 3, "MaxSteps": 4 if q else 6,
+                     "Acts": acts("define", "del", "push", "clear", "fire", "set", "call", "unload")}, inv, prop, None),
     ]
+    if not q:
+        # thorough: the large configurations above run without the tick family (with it they did not finish within the
+        # time limits on a shared machine); the tick family is model-checked at the quick tier's size
+        jobs += [
+            ("containers-tick", {"DeclSet": "{6, 7}", "Name": '{"f"}', "Vias": '{"exec", "run"}', "MaxSteps": 4,
+                                 "Acts": acts("define", "del", "push", "pop", "clear", "tick", "fire", "set", "unload")}, inv, prop, None),
+            ("names3-tick", {"DeclSet": "{5, 7}", "Name": '{"f", "g", "h"}', "MaxSteps": 4,
+                             "Acts": acts("define", "del", "rebind", "tick", "fire", "set")}, inv, prop, None),
+            ("windows-tick", {"DeclSet": "{7, 8}", "SubSet": '{"dm", "legacy"}', "Eager": "FALSE", "MaxGen": 3, "MaxSteps": 4,
+                              "Acts": acts("define", "del", "push", "clear", "tick", "fire", "set", "call", "unload")}, inv, prop, None),
+        ]
     # file contents with two definitions (also of the same name), one context; contents whose top level fails after them
     jobs.append(("contents2", {"DeclSet": "{4, 7}", "StartedSet": "{TRUE, FALSE}", "MaxDefs": 2, "MaxSteps": 2 if q else 3,
                                "Acts": acts("boot", "reload", "fail", "del", "close", "fire", "call")}, inv, prop, None))
